@@ -380,3 +380,99 @@ Proof.
     + cbn [sumN]. rewrite Hsum. unfold lenN, dropN. rewrite skipn_length. unfold lenN in Hsz. lia.
     + constructor; [lia | exact Hpos].
 Qed.
+
+(* ---------- contents of a DS line ---------- *)
+
+(* the uniform-run tracker: after the bytes [done], the first count+1 bytes are all equal to the first one, the count
+   stays within what was seen, and while the tracker is alive that is all of them *)
+Definition uni_inv (done : list N) (s : N * bool) : Prop :=
+  Forall (fun b => b = hd 0 done) (firstn (S (N.to_nat (fst s))) done) /\
+  (done <> [] -> (S (N.to_nat (fst s)) <= length done)%nat) /\ (done = [] -> fst s = 0) /\
+  (snd s = true -> done <> [] -> length done = S (N.to_nat (fst s))).
+
+Lemma firstn_snoc_short {A} (l : list A) x n : (n <= length l)%nat -> firstn n (l ++ [x]) = firstn n l.
+Proof. intros H. rewrite firstn_app. replace (n - length l)%nat with O by lia. cbn [firstn]. apply app_nil_r. Qed.
+Lemma hd_snoc (l : list N) x : l <> [] -> hd 0 (l ++ [x]) = hd 0 l.
+Proof. destruct l; [contradiction | reflexivity]. Qed.
+
+Definition uni_next (s : N * bool) (k c : N) (prev : list N) : N * bool :=
+  if snd s && (1 - 1 <? k) && (c =? nthN prev (1 - 1) 256) then (fst s + 1, true) else if 1 - 1 <? k then (fst s, false) else s.
+
+Lemma uni_step done s c : uni_inv done s -> uni_inv (done ++ [c]) (uni_next s (lenN done) c (rev done)).
+Proof.
+  intros (HF & HB & HZ & HA). unfold uni_next. change (1 - 1) with 0.
+  destruct s as [u a]. cbn [fst snd] in *.
+  destruct done as [|d0 dr] eqn:D.
+  - unfold lenN. cbn [length N.of_nat]. change (0 <? 0) with false. rewrite andb_false_r. cbn [andb fst snd].
+    rewrite (HZ eq_refl). cbn [app]. unfold uni_inv. cbn [fst snd]. split; [|split; [|split]].
+    + cbn. constructor; [reflexivity | constructor].
+    + intros _. cbn. lia.
+    + discriminate.
+    + intros _ _. reflexivity.
+  - rewrite <- D in *. assert (Hne : done <> []) by (rewrite D; discriminate).
+    assert (Hk : (0 <? lenN done) = true) by (rewrite D; reflexivity).
+    rewrite Hk, andb_true_r. specialize (HB Hne).
+    assert (Hne2 : done ++ [c] <> []) by (destruct done; discriminate).
+    destruct (a && (c =? nthN (rev done) 0 256)) eqn:C; cbn [fst snd].
+    + apply andb_prop in C as [Ca Cc]. subst a. apply N.eqb_eq in Cc. specialize (HA eq_refl Hne).
+      unfold uni_inv. cbn [fst snd]. split; [|split; [|split]].
+      * replace (N.to_nat (u + 1)) with (S (N.to_nat u)) by lia.
+        rewrite hd_snoc by exact Hne.
+        rewrite firstn_all2 by (rewrite app_length; cbn [length]; lia).
+        rewrite <- HA in HF. rewrite firstn_all in HF.
+        apply Forall_app. split; [exact HF|]. constructor; [|constructor].
+        subst c. unfold nthN. cbn [N.to_nat].
+        rewrite Forall_forall in HF. apply HF.
+        destruct (rev done) as [|x r] eqn:R; [exfalso; apply Hne; rewrite <- (rev_involutive done), R; reflexivity|].
+        cbn [nth]. apply in_rev. rewrite R. left. reflexivity.
+      * intros _. rewrite app_length. cbn [length]. lia.
+      * intros E. contradiction.
+      * intros _ _. rewrite app_length. cbn [length]. lia.
+    + unfold uni_inv. cbn [fst snd]. split; [|split; [|split]].
+      * rewrite hd_snoc by exact Hne. rewrite firstn_snoc_short by exact HB. exact HF.
+      * intros _. rewrite app_length. cbn [length]. lia.
+      * intros E. contradiction.
+      * discriminate.
+Qed.
+
+Lemma track_uni t k c prev : t_uni (track t k c prev) = uni_next (t_uni t) k c prev.
+Proof. reflexivity. Qed.
+
+Lemma scan_uni bs : forall done t, uni_inv done (t_uni t) ->
+  exists done', uni_inv done' (t_uni (scan_run bs (lenN done) (rev done) t)) /\ exists rest, done ++ bs = done' ++ rest.
+Proof.
+  induction bs as [|c r IH]; intros done t H; cbn [scan_run].
+  - exists done. split; [exact H | exists []; reflexivity].
+  - destruct (alive t).
+    + assert (E1 : lenN done + 1 = lenN (done ++ [c])) by (unfold lenN; rewrite app_length; cbn [length]; lia).
+      assert (E2 : c :: rev done = rev (done ++ [c])) by (rewrite rev_app_distr; reflexivity).
+      rewrite E1, E2.
+      destruct (IH (done ++ [c]) (track t (lenN done) c (rev done))) as (done' & Hd & rest & Hr).
+      * rewrite track_uni. apply uni_step. exact H.
+      * exists done'. split; [exact Hd|]. exists rest. rewrite <- Hr, <- app_assoc. reflexivity.
+    + exists done. split; [exact H | exists (c :: r); reflexivity].
+Qed.
+
+(* a DS line stands for exactly the bytes it replaces: count copies of the first byte *)
+Theorem ds_run_is_uniform bs n e : data_run_ex bs = (1, n, e) -> e = 0 /\ Forall (fun b => b = hd 0 bs) (takeN n bs) /\ 1 < n.
+Proof.
+  unfold data_run_ex.
+  assert (I0 : uni_inv [] (t_uni (mktr (0, true) (0, true) (0, true) (0, true) (0, true)))).
+  { unfold uni_inv. cbn [t_uni fst snd]. split; [|split; [|split]]; [constructor | intros X; contradiction | reflexivity | intros _ X; contradiction]. }
+  destruct (scan_uni bs [] _ I0) as (done' & (HF & HB & HZ & _) & rest & Hr).
+  change (lenN (@nil N)) with 0 in *. change (rev (@nil N)) with (@nil N) in *. cbn [app] in Hr.
+  remember (scan_run bs 0 [] (mktr (0, true) (0, true) (0, true) (0, true) (0, true))) as t eqn:Et. clear Et.
+  intros H.
+  destruct (0 <? fst (t_uni t)) eqn:U.
+  - apply N.ltb_lt in U.
+    assert (Hd : done' <> []) by (intros E; specialize (HZ E); lia).
+    specialize (HB Hd).
+    assert (G : n = fst (t_uni t) + 1 /\ e = 0).
+    { repeat match type of H with context [if ?b then _ else _] => destruct b end; try discriminate; injection H as <- <-; try discriminate; split; reflexivity. }
+    destruct G as [-> ->]. split; [reflexivity|]. split; [|lia].
+    unfold takeN. replace (N.to_nat (fst (t_uni t) + 1)) with (S (N.to_nat (fst (t_uni t)))) by lia.
+    rewrite Hr, firstn_app. replace (S (N.to_nat (fst (t_uni t))) - length done')%nat with O by lia. cbn [firstn]. rewrite app_nil_r.
+    replace (hd 0 (done' ++ rest)) with (hd 0 done') by (destruct done'; [contradiction | reflexivity]). exact HF.
+  - exfalso. change (0 <? 0) with false in H. cbn [andb] in H.
+    repeat match type of H with context [if ?b then _ else _] => destruct b end; discriminate.
+Qed.
